@@ -387,6 +387,20 @@ def main(repo, out, work):
     if len(lsz) != 1 or len(lst) != 1:
         raise TranslateError('LinTerms: %d size() and %d sort_terms() bodies' % (len(lsz), len(lst)))
     loop_text, loop_params = tr_loops_c12.LoopFn(lst[0], 'LinTerms_sort_terms', tr_loops_c12.size_field(lsz[0])).translate()
+    # round 8: QuadTerms::sort_terms (three vectors, a map keyed by the sorted variable pair, a local lambda, add_term inlined)
+    qdocs = clang_dump(tu6, 'mp::QuadTerms', [os.path.join(repo, 'include'), os.path.join(repo, 'src')])
+    for dd in qdocs:
+        prune_comments(dd)
+    qms = [b for dd in qdocs for b in find_nodes(dd, lambda n: n.get('kind') == 'CXXMethodDecl' and n.get('name') in ('sort_terms', 'size', 'add_term')
+                                                 and any(c.get('kind') == 'CompoundStmt' for c in n.get('inner', [])))]
+    qget = {}
+    for m in qms:
+        qget.setdefault(m['name'], []).append(m)
+    if any(len(qget.get(k, [])) != 1 for k in ('sort_terms', 'size', 'add_term')):
+        raise TranslateError('QuadTerms: expected exactly one body each of sort_terms, size, add_term')
+    qf = tr_loops_c12.LoopFn(qget['sort_terms'][0], 'QuadTerms_sort_terms', tr_loops_c12.size_field(qget['size'][0]))
+    qf.methods = {'add_term': qget['add_term'][0]}
+    quad_text, quad_params = qf.translate()
     o = ['/- GENERATED by translators/gen_objfilter.py from include/mp/nl-reader.h, solver-base.h, solver-io.h.',
          '   Do not edit: regenerated on every check run.  Parameters: p_* declared parameters, f_* fields of `this`',
          '   (or of the member object the call goes through), v_* results of virtual calls on `this`,',
@@ -410,6 +424,7 @@ def main(repo, out, work):
     o.append('/-! ### `LinTerms::sort_terms` (src/std_constr.cc): loops over the two vectors and a local `std::map`, exact arithmetic -/')
     o.append(tr_loops_c12.PRELUDE)
     o.append(loop_text)
+    o.append(quad_text)
     o.append('/-- driver table: name, arity, function on an argument list (wrong arity -> ub) -/')
     o.append('def table : List (String × Nat × (List Int → Outcome Int)) := [')
     ent = []
